@@ -21,9 +21,11 @@ def array(x, dtype=None):
     if isinstance(x, bool):
         return Sym(z3.BoolVal(x))
     if isinstance(x, int):
-        return Sym(z3.IntVal(x)) if dtype is None or "int" in str(dtype) else Sym(z3.RealVal(x))
+        return Sym(z3.IntVal(x), weak=dtype is None) if dtype is None or "int" in str(dtype) else Sym(z3.RealVal(x))
     if isinstance(x, float):
-        return Sym(_lift(x))
+        from ..sym import cast_to
+
+        return Sym(_lift(x), weak=True) if dtype is None else cast_to(Sym(_lift(x)), dtype)
     if isinstance(x, (list, tuple)):
         from ..tensor import Tensor
 
@@ -92,6 +94,26 @@ def any(x, axis=None):  # noqa: A001
     if isinstance(x, (dict, list, tuple)) or x is None:
         raise documented(TypeError("any requires ndarray or scalar arguments, got %s" % type(x)))
     raise EngineLimit("jnp.any(%r)" % type(x))
+
+
+def all(x, axis=None):  # noqa: A001
+    Assumed.note("jnp.all(x) = not any(not x)")
+    if isinstance(x, Sym):
+        return x
+    if isinstance(x, bool):
+        return Sym(z3.BoolVal(x))
+    if _is_tensor(x):
+        return ~((~x).any(axis))
+    raise EngineLimit("jnp.all(%r)" % type(x))
+
+
+def allclose(a, b, rtol=1e-05, atol=1e-08, equal_nan=False):
+    Assumed.note("jnp.allclose(a, b, rtol, atol) = all(|a - b| <= atol + rtol |b|) element-wise with broadcasting (defaults rtol = 1e-5, atol = 1e-8)")
+    mag = lambda v: where(v >= 0, v, -v)
+    b = array(b)
+    d = mag(array(a) - b)
+    bound = mag(b) * Sym(z3.RealVal(repr(float(rtol)))) + Sym(z3.RealVal(repr(float(atol))))
+    return all(d <= bound)
 
 
 def minimum(a, b):
@@ -473,7 +495,7 @@ def namespace(**extra):
     ns = StubNS(
         result_type=result_type, issubdtype=issubdtype, floating="floating", integer="integer", inexact="inexact", complexfloating="complexfloating", number="number",
         array=array, asarray=asarray, shape=shape, ndim=ndim, where=where, logical_xor=logical_xor, take=take, sum=sum, any=any,
-        minimum=minimum, maximum=maximum, log=log, exp=exp, add=add, ndarray=object, arange=arange, zeros=zeros, ones=ones, mean=mean, repeat=repeat, nan=float('nan'), inf=INF, isfinite=isfinite, isinf=lambda x: ~isfinite(x), cumsum=cumsum, searchsorted=searchsorted, diag=diag, linalg=StubNS(inv=inv, slogdet=slogdet, cholesky=cholesky), zeros_like=zeros_like, ones_like=ones_like, full=full, full_like=full_like, concatenate=concatenate,
+        minimum=minimum, maximum=maximum, log=log, exp=exp, add=add, ndarray=object, arange=arange, zeros=zeros, ones=ones, mean=mean, repeat=repeat, nan=float('nan'), inf=INF, isfinite=isfinite, isinf=lambda x: ~isfinite(x), cumsum=cumsum, searchsorted=searchsorted, diag=diag, linalg=StubNS(inv=inv, slogdet=slogdet, cholesky=cholesky), zeros_like=zeros_like, ones_like=ones_like, all=all, allclose=allclose, full=full, full_like=full_like, concatenate=concatenate,
         float32="float32", int32="int32", bool_="bool", pi=3.141592653589793,
     )
     for k, v in extra.items():
